@@ -287,7 +287,7 @@ func TestConstructed(t *testing.T) {
 		func() {
 			defer func() {
 				if rec := recover(); rec != nil {
-					if s, ok := rec.(string); ok && (s == "multi-line ATX" || s == "tight adjacency") {
+					if s, ok := rec.(string); ok && (s == "multi-line ATX" || s == "tight adjacency" || s == "pi hazard") {
 						src = ""
 						return
 					}
@@ -318,6 +318,14 @@ func TestConstructed(t *testing.T) {
 		if altAutoCount > 0 {
 			kit.R.ClassN("construct:autolink-in-image-description", int64(altAutoCount))
 			altAutoCount = 0
+		}
+		if longLabelCount > 0 {
+			kit.R.ClassN("spelling:label-of-999-characters", int64(longLabelCount))
+			longLabelCount = 0
+		}
+		if nearDefCount > 0 {
+			kit.R.ClassN("spelling:definition-look-alike", int64(nearDefCount))
+			nearDefCount = 0
 		}
 		if notLinkCount > 0 {
 			kit.R.ClassN("spelling:link-look-alike", int64(notLinkCount))
